@@ -115,9 +115,12 @@ public:
     } else {
       bool if_offset = (c0);
       int num_el = Q.num_nz_ + if_offset;
-      auto sumw = ew.OPutN(nl::SUM, num_el);
+      int num_pad = num_el<3 ? 3-num_el : 0;  // NL sum needs >=3 args
+      auto sumw = ew.OPutN(nl::SUM, num_el + num_pad);
       if (if_offset)
         sumw.NPut(c0);
+      for ( ; num_pad--; )
+        sumw.NPut(0.0);
       auto pos_end = Q.num_nz_;
       for (auto i=NLME().NumCols(); i--; ) {
         for (auto pos=Q.start_[i]; pos!=pos_end; ++pos) {
